@@ -520,6 +520,8 @@ class KeyInterp:
                 return NBRS if len(args) == 2 and args[0] == G and args[1] == ATOM else Unk(q)
             if q.endswith("get_node_attributes") and len(args) == 2 and args[0] == G:
                 return Per("dict", ("val", "own")) if args[1] == ATTR else Unk(q)
+            if q.split(".")[-1] == "Graph" and len(args) == 1 and args[0] == G:
+                return G            # nx.Graph(m): a copy of the molecule, like m.copy()
             if q in ("itertools.count", "count"):
                 return RANGE_U
             if q.split(".")[-1] in ("islice", "takewhile", "dropwhile") and any(x == NBRS for x in args):
